@@ -198,7 +198,7 @@ _LAUNCH = re.compile(r"(\b\w+)\s*<<<([^;]*?)>>>\s*\(")
 _LAUNCH_SUB = r"for (verif_launch_begin(\2); verif_launch_more(); verif_launch_next()) \1("
 
 
-def build_cusparse(proj: Path, build: Path, cache: Path, seams=True, sanitize=True, extra_flags=(), core_only=False) -> dict:
+def build_cusparse(proj: Path, build: Path, cache: Path, seams=True, sanitize=True, extra_flags=(), core_only=False, with_naunet=False) -> dict:
     """CPU emulation of the cusparse back-end: the .cu kernel text is compiled as C++."""
     proj, build = Path(proj), Path(build)
     build.mkdir(parents=True, exist_ok=True)
@@ -226,8 +226,15 @@ def build_cusparse(proj: Path, build: Path, cache: Path, seams=True, sanitize=Tr
         obj = build / "naunet_utilities.o"
         warns[u.name] = compile_unit(u, obj, incs, CUDA_DEFS + list(extra_flags), sanitize=sanitize)
         objs.append(obj)
+    if with_naunet:
+        # the generated class (Init / Solve / Finalize of the cusparse method), against the emulated CUDA + SUNDIALS surface
+        u = srcdir / "naunet.cpp"
+        obj = build / "naunet.o"
+        warns[u.name] = compile_unit(u, obj, incs, CUDA_DEFS + list(extra_flags), sanitize=sanitize)
+        objs.append(obj)
     dobj = build / "driver.o"
-    warns["driver"] = compile_unit(HERE / "driver_cusparse.cpp", dobj, incs, CUDA_DEFS + list(extra_flags), sanitize=sanitize)
+    warns["driver"] = compile_unit(HERE / "driver_cusparse.cpp", dobj, incs, CUDA_DEFS + list(extra_flags) + (["-DVERIF_WITH_NAUNET=1"] if with_naunet else []),
+                                   sanitize=sanitize)
     rt = runtime_object(cache, "shim_runtime.cpp", sanitize=sanitize)
     rt2 = runtime_object(cache, "cuda_runtime.cpp", sanitize=sanitize, extra=CUDA_DEFS)
     exe = build / "driver"
@@ -266,9 +273,11 @@ class RunResult:
         return self.returncode != 0 or self.timed_out
 
 
-def run_driver(exe: Path, commands: list[str], cwd: Path, timeout=300) -> RunResult:
+def run_driver(exe: Path, commands: list[str], cwd: Path, timeout=300, leaks=True) -> RunResult:
     env = dict(os.environ)
     env.update(ASAN_ENV)
+    if not leaks:
+        env["ASAN_OPTIONS"] = env["ASAN_OPTIONS"].replace("detect_leaks=1", "detect_leaks=0")
     sym = shutil.which("llvm-symbolizer-14") or shutil.which("llvm-symbolizer")
     if sym:
         env["ASAN_SYMBOLIZER_PATH"] = sym
